@@ -164,12 +164,14 @@ func H_C03_compose() {
 var sharedLeaves = []string{
 	`s matches "^a"`, `s matches "b$"`, `s matches "("`, `s == "a"`, `s == "b"`, `s != "a"`,
 	`m["b.c"] == 1`, `m.b.c == 1`, `"a" in s`, `s is empty`, `s not matches "^a"`, `"/m/b/c" == 1`,
+	`m["b/c"] == 1`, `"/m/b~1c" != 2`, `(any l as s { s == 1 })`, `(all l as m { m != 1 })`, `(any l as i, v { v == 1 and i == 0 })`, `v == 1`, `i == 0`,
 }
 
 func H_C03_shared() {
 	d := map[string]interface{}{
 		"s": vString(1),
-		"m": map[string]interface{}{"b.c": vInt8(), "b": map[string]interface{}{"c": vInt8()}},
+		"m": map[string]interface{}{"b.c": vInt8(), "b": map[string]interface{}{"c": vInt8()}, "b/c": vInt8()},
+		"l": []interface{}{vInt8(), vInt8()}, "v": vInt8(), "i": vInt8(),
 	}
 	ea := sharedLeaves[vChoose(len(sharedLeaves))]
 	eb := sharedLeaves[vChoose(len(sharedLeaves))]
